@@ -561,6 +561,7 @@ def twin_equivalence(chk, prop, via, counts, seed):
     for s_ in scen:
         a = json.loads(json.dumps(s_))
         a["rollover"] = False
+        a["bridges"] = a.get("bridges") or ["default", "b2"]   # both runs of a pair use the same configuration
         fps = {}
         for st in s_["steps"]:
             if st[0] == "ClientMatch":
